@@ -5,6 +5,10 @@
 //       every line is one (abstract input, expected outcome) pair printed by TLC from
 //       spec/B3Jaeger.tla (plus "id"); each is concretised n times (seeded), run through the real
 //       propagator and compared with TLC's expectation.  One result line per case.
+//   c16_b3jaeger record <seed> <n>
+//       code -> spec: n random executions (byte-level mutations of documented headers; round trips
+//       of random contexts), one ndjson event each, every header byte abstracted to a token, for
+//       validation by spec/B3JaegerTrace.tla.
 //
 // Concretisation table (abstract class -> bytes), all choices seeded:
 //   tid   ok32: 32 lower-case hex, non-zero | ok16: 16 hex, non-zero (expected id = 8 zero bytes + value)
@@ -453,11 +457,239 @@ static int replay(const char *path, uint64_t seed, int n)
   return 0;
 }
 
+
+// ---- code -> spec: record real executions, every byte abstracted to a token -----------------------------
+static int token_of(unsigned char c)
+{
+  if (c >= '0' && c <= '9')
+    return c - '0';
+  if (c >= 'a' && c <= 'f')
+    return c - 'a' + 10;
+  if (c >= 'A' && c <= 'F')
+    return c - 'A' + 26;
+  if (c == '-')
+    return 40;
+  if (c == ' ' || c == '\t')
+    return 41;
+  if (c == ':')
+    return 44;
+  return 43;
+}
+static json hdr_event(const std::string *v)
+{
+  json a = json::array();
+  if (v)
+    for (unsigned char c : *v)
+      a.push_back(token_of(c));
+  return json{{"p", v != nullptr && !v->empty()}, {"v", a}};
+}
+static json nibbles(const uint8_t *p, size_t n)
+{
+  json a = json::array();
+  for (size_t i = 0; i < n; ++i)
+  {
+    a.push_back(p[i] >> 4);
+    a.push_back(p[i] & 15);
+  }
+  return a;
+}
+static json obs_event(const Obs &o)
+{
+  bool v = o.kind == "valid" || o.kind == "invalid";
+  return json{{"out", o.kind},
+              {"remote", o.remote},
+              {"tid", v ? nibbles(o.tid, 16) : json::array()},
+              {"sid", v ? nibbles(o.sid, 8) : json::array()},
+              {"sampled", o.sampled}};
+}
+static const std::string kPool = std::string("0123456789abcdefABCDEF0011dD--::  \tgxz_.+%", 42) + std::string("\x00\x80\xff\x7f", 4);
+
+static std::string mutate(Rng &r, std::string h)
+{
+  uint32_t c = r.below(100);
+  uint32_t m = c < 45 ? 0 : c < 75 ? 1 : c < 92 ? 2 : r.range(3, 5);
+  for (uint32_t i = 0; i < m; ++i)
+  {
+    size_t n = h.size();
+    switch (r.below(9))
+    {
+      case 0:
+      case 1:
+        if (n)
+          h[r.below(uint32_t(n))] = r.pick(kPool);
+        break;
+      case 2:
+        if (n)
+          h.erase(r.below(uint32_t(n)), 1);
+        break;
+      case 3:
+        h.insert(r.below(uint32_t(n + 1)), 1, r.pick(kPool));
+        break;
+      case 4:
+        if (n)
+          h.resize(r.coin() ? r.below(uint32_t(n)) : n - 1 - r.below(uint32_t(std::min<size_t>(n, 4))));
+        break;
+      case 5:
+        for (uint32_t k = r.range(1, 4); k > 0; --k)
+          h += r.pick(kPool);
+        break;
+      case 6:
+        if (n)
+        {
+          char &ch = h[r.below(uint32_t(n))];
+          if (ch >= 'a' && ch <= 'f')
+            ch = char(ch - 'a' + 'A');
+          else if (ch >= 'A' && ch <= 'F')
+            ch = char(ch - 'A' + 'a');
+        }
+        break;
+      case 7:
+        if (n >= 16)
+        {
+          size_t at = r.coin() ? 0 : n - 16;  // a run of zeros over the first / last 16 bytes
+          for (size_t k = 0; k < 16; ++k)
+            if (h[at + k] != '-' && h[at + k] != ':')
+              h[at + k] = '0';
+        }
+        break;
+      default:
+        h = (r.coin() ? " " : "") + h + (r.coin() ? " " : "\t");
+    }
+  }
+  return h;
+}
+static std::string base_tid(Rng &r)
+{
+  uint8_t id[16];
+  uint32_t k = r.below(20);
+  if (k == 0)
+    return std::string(r.coin() ? 32 : 16, '0');
+  make_ok_id(r, id, 16);
+  if (k < 8)
+  {
+    make_ok_id(r, id + 8, 8);
+    return hexstr(id + 8, 8);
+  }
+  return hexstr(id, 16);
+}
+static std::string base_sid(Rng &r)
+{
+  uint8_t id[8];
+  if (r.below(25) == 0)
+    return std::string(16, '0');
+  make_ok_id(r, id, 8);
+  return hexstr(id, 8);
+}
+
+static int record(uint64_t seed, long n)
+{
+  for (long i = 0; i < n; ++i)
+  {
+    Rng r(mix(seed, uint64_t(i), 78));
+    Caller caller = make_caller(r, int(i % 3));
+    uint32_t kind = r.below(10);
+    json e;
+    if (kind < 5)
+    {
+      // B3 extraction: single only / multi only / both
+      uint32_t sc = r.below(20);
+      bool single = sc < 8 || sc >= 15, multi = sc >= 8;
+      std::vector<std::pair<std::string, std::string>> kv;
+      if (single)
+      {
+        std::string v = base_tid(r) + "-" + base_sid(r);
+        uint32_t f    = r.below(8);
+        if (f >= 2)
+        {
+          static const std::vector<std::string> sv = {"1", "0", "d", "1", "0", "d", "D", "true", "2", ""};
+          v += "-" + (f < 7 ? sv[r.below(6)] : r.pick(sv));
+          if (r.below(3) == 0)
+            v += "-" + hexdigits(r, 16);
+        }
+        kv.emplace_back("b3", mutate(r, v));
+      }
+      if (multi)
+      {
+        if (r.below(12))
+          kv.emplace_back("X-B3-TraceId", mutate(r, base_tid(r)));
+        if (r.below(12))
+          kv.emplace_back("X-B3-SpanId", mutate(r, base_sid(r)));
+        uint32_t f = r.below(10);
+        static const std::vector<std::string> sv = {"d", "true", "false", "2", "01", "D", " 1", "a"};
+        if (f < 7)
+          kv.emplace_back("X-B3-Sampled", f < 4 ? "1" : "0");
+        else if (f == 7)
+          kv.emplace_back("X-B3-Sampled", r.pick(sv));
+      }
+      json raw = json::object();
+      for (auto &p : kv)
+        raw[p.first] = esc(p.second);
+      set_current(i, 0, json{{"headers", raw}});
+      std::unique_ptr<Propagator> prop(make_prop("b3", int(i)));
+      Obs o = do_extract(*prop, kv, caller);
+      auto find = [&kv](const char *k) -> const std::string * {
+        for (auto &p : kv)
+          if (p.first == k)
+            return &p.second;
+        return nullptr;
+      };
+      e = {{"e", "B3"},
+           {"b3", hdr_event(find("b3"))},
+           {"mt", hdr_event(find("X-B3-TraceId"))},
+           {"ms", hdr_event(find("X-B3-SpanId"))},
+           {"mf", hdr_event(find("X-B3-Sampled"))},
+           {"x", obs_event(o)},
+           {"raw", raw}};
+    }
+    else if (kind < 8)
+    {
+      static const std::vector<std::string> fv = {"00", "01", "00", "01", "1", "0", "03", "ff", "2", "", "001"};
+      std::string v = base_tid(r) + ":" + base_sid(r) + ":" + (r.below(3) ? std::string("0") : hexdigits(r, 16)) + ":" + r.pick(fv);
+      v             = mutate(r, v);
+      std::vector<std::pair<std::string, std::string>> kv;
+      bool present = r.below(30) != 0;
+      if (present)
+        kv.emplace_back("uber-trace-id", v);
+      set_current(i, 0, json{{"headers", json{{"uber-trace-id", present ? json(esc(v)) : json(nullptr)}}}});
+      std::unique_ptr<Propagator> prop(make_prop("jg", 0));
+      Obs o = do_extract(*prop, kv, caller);
+      e     = {{"e", "JG"}, {"h", hdr_event(present ? &v : nullptr)}, {"x", obs_event(o)}, {"raw", esc(v)}};
+    }
+    else
+    {
+      static const char *fmts[] = {"b3s", "b3m", "jg"};
+      std::string fmt           = fmts[r.below(3)];
+      uint8_t tid[16], sid[8];
+      make_ok_id(r, tid, 16);
+      make_ok_id(r, sid, 8);
+      uint8_t fl = uint8_t(r.next());
+      set_current(i, 0, json{{"fmt", fmt}, {"tid", hexstr(tid, 16)}, {"sid", hexstr(sid, 8)}, {"flags", fl}});
+      trace::SpanContext c(trace::TraceId(tid), trace::SpanId(sid), trace::TraceFlags(fl), r.coin());
+      ctxns::Context src;
+      src = trace::SetSpan(src, opentelemetry::nostd::shared_ptr<trace::Span>(new trace::DefaultSpan(c)));
+      std::unique_ptr<Propagator> prop(make_prop(fmt, 0));
+      Carrier car;
+      prop->Inject(car, src);
+      Obs o    = do_extract(*prop, car.Sets(), caller);
+      json raw = json::object();
+      for (auto &p : car.Sets())
+        raw[p.first] = esc(p.second);
+      e = {{"e", "RT"}, {"fmt", fmt}, {"tid", nibbles(tid, 16)}, {"sid", nibbles(sid, 8)}, {"fl", int(fl)},
+           {"x", obs_event(o)}, {"raw", raw}};
+    }
+    std::cout << e.dump() << std::endl;
+  }
+  current_case().clear();
+  return 0;
+}
+
 int main(int argc, char **argv)
 {
   install_death_callback();
   if (argc >= 5 && std::string(argv[1]) == "replay")
     return replay(argv[2], strtoull(argv[3], nullptr, 10), atoi(argv[4]));
-  fprintf(stderr, "usage: c16_b3jaeger replay <cases.ndjson> <seed> <n>\n");
+  if (argc >= 4 && std::string(argv[1]) == "record")
+    return record(strtoull(argv[2], nullptr, 10), atol(argv[3]));
+  fprintf(stderr, "usage: c16_b3jaeger replay <cases.ndjson> <seed> <n> | record <seed> <n>\n");
   return 9;
 }
